@@ -45,3 +45,33 @@ func HPrfPrimeEmpty() {
 	_, _, _, _, _, err := EapAkaPrimePRF(ik, ck, "id")
 	vr.Assert("c16.refuse", err != nil)
 }
+
+// vSpecPrfPrime is the independent PRF' (the first 208 octets of MK).
+func vSpecPrfPrime(ik, ck, id []byte) []byte {
+	key := append(append([]byte{}, ik...), ck...)
+	s := append([]byte("EAP-AKA'"), id...)
+	var mk, prev []byte
+	for i := 1; len(mk) < 208; i++ {
+		msg := append(append(append([]byte{}, prev...), s...), byte(i))
+		prev = vr.HMAC("sha256", key, msg)
+		mk = append(mk, prev...)
+	}
+	return mk[:208]
+}
+
+// HPrfPrimeTwice (C16): two derivations in a row with unrelated inputs each give the keys of their own
+// inputs (nothing is remembered from one call to the next), also when the concatenations IK'|CK'|S of the
+// two calls could coincide.  Params: |IK'|, |CK'|, |identity| of the first call, then of the second.
+func HPrfPrimeTwice() {
+	for c := 0; c < 2; c++ {
+		ik, ck, id := vr.Bytes(vr.Param(3*c)), vr.Bytes(vr.Param(3*c+1)), vr.Bytes(vr.Param(3*c+2))
+		kenc, kaut, kre, msk, emsk, err := EapAkaPrimePRF(append([]byte{}, ik...), append([]byte{}, ck...), string(id))
+		vr.Assert("c16.twice.noerr", err == nil)
+		if err != nil {
+			return
+		}
+		mk := vSpecPrfPrime(ik, ck, id)
+		all := append(append(append(append(append([]byte{}, kenc...), kaut...), kre...), msk...), emsk...)
+		vr.Assert("c16.twice.keys", vr.EqBytes(all, mk))
+	}
+}
